@@ -4,9 +4,9 @@ CFG = dict(
     theorems=["readObj_ranges_sum", "readObj_faces_content", "readObj_noMatlessAfterMat", "obj_reload_strict", "obj_resave_faces", "obj_resave_positions", "obj_resave_corners", "obj_resave_corners_uniform", "readObj_corners", "readObj_normals_complete", "obj_roundtrip_struct",
               "obj_roundtrip_carry", "obj_roundtrip", "readObj_transport", "obj_roundtrip_text", "obj_reload", "obj_shared_offset_breaks",
               "obj_matless_after_mat_witness", "obj_empty_mesh_not_last_witness",
-              "obj_resave_literal"],
+              "obj_resave_literal", "parseInt_showInt", "showInt_clean", "parseInt_range", "parseCorner_showCorner", "showCorner_no_blank"],
     helper_theorems=["readObj_resolves_at_face"],
-    modules=["PolyVerif.Props.C05", "PolyVerif.Props.C05Resave"],
+    modules=["PolyVerif.Props.C05", "PolyVerif.Props.C05Resave", "PolyVerif.Props.C05Text"],
     streams=[dict(name="c05", n=dict(quick=300, thorough=10000))],
     trusted=T_COMMON + [
         "text layer: the driver's lexer (bufio.ScanLines, strings.Fields, strconv.Atoi/ParseFloat(.,32), parseObjFaceComponent) and printer (strconv 'f' -1 = shortest round-tripping decimal, computed with exact rational arithmetic) are hand transcriptions in lean/Driver/C05.lean, tied text-exactly by the c05.write / c05.read correspondence on every run; they are not the subject of the theorems",
